@@ -61,6 +61,13 @@ func rigFiller(name string, seed uint64) (scan.PacketFiller, oracle.Link) {
 			pl[i] = byte(rigHash(seed, uint32(i), 9))
 		}
 		return udp.NewPacketFiller(udp.WithPayload(pl)), oracle.LinkEthernet
+	case "udp-big":
+		// frames longer than an Ethernet MTU (loopback, jumbo links): built frames are written as they are
+		pl := make([]byte, 1500+int(seed%7000))
+		for i := range pl {
+			pl[i] = byte(rigHash(seed, uint32(i), 9))
+		}
+		return udp.NewPacketFiller(udp.WithPayload(pl)), oracle.LinkEthernet
 	case "icmp":
 		return icmp.NewPacketFiller(), oracle.LinkEthernet
 	case "icmp-vpn":
@@ -330,7 +337,7 @@ func c07run(run *vlab.Run, c c07case) (obs c07obs) {
 func c07cases(run *vlab.Run) []c07case {
 	rng := run.Rand("cases")
 	var cases []c07case
-	fillers := []string{"tcp", "tcp-vpn", "udp", "icmp", "icmp-vpn", "arp", "synth"}
+	fillers := []string{"tcp", "tcp-vpn", "udp", "icmp", "icmp-vpn", "arp", "synth", "udp-big"}
 	workers := []int{1, 2, 3, 8, 16, 64}
 	sizes := []int{0, 1, 2, 99, 100, 101, 250, 1000, 3000}
 	n := run.Pick(400, 8000)
@@ -370,6 +377,7 @@ func c07cases(run *vlab.Run) []c07case {
 	cases = append(cases, c07case{N: 500, W: 8, Filler: "udp", FillFail: 1000, BurstAt: -1, Seed: 6, SlowDrain: true})
 	cases = append(cases, c07case{N: 500, W: 3, Filler: "icmp", WriteFail: 1000, BurstAt: -1, Seed: 7, SlowDrain: true})
 	cases = append(cases, c07case{N: 500, W: 3, Filler: "tcp", WriteFail: 1000, TempWrites: true, BurstAt: -1, Seed: 8})
+	cases = append(cases, c07case{N: 300, W: 4, Filler: "udp-big", BurstAt: -1, Seed: 10}, c07case{N: 200, W: 2, Filler: "udp-big", ErrPermille: 100, BurstAt: -1, Seed: 6999 + 11})
 	cases = append(cases, c07case{N: 300, W: 8, Filler: "udp", WriteFail: 300, TempWrites: true, BurstAt: -1, Seed: 9, SlowDrain: true})
 	return cases
 }
